@@ -63,6 +63,10 @@ EnvsD == {[ct |-> CT(xd, <<>>), regD |-> [K1 |-> r1, K2 |-> r2, K3 |-> <<f3>>, W
            regS |-> [K1 |-> <<>>, K2 |-> <<>>, K3 |-> <<>>, W |-> <<>>, H |-> <<>>, N |-> <<>>, H2 |-> <<>>], via |-> via]
             : r1 \in Seqs2(DPool) \cup {<<fh>>, <<fh, fi>>, <<fs, fh>>}, r2 \in {<<>>, <<f2>>}, xd \in {<<>>, <<fs>>}, via \in {"reg", "param"}}
 DynsD == {<<>>, <<IdAll>>, <<IdOf(K1)>>, <<fs>>, <<fi, fs>>, <<f2>>, <<fk3sub>>, <<fs, IdAll>>}
+\* for the deque roots: a dynamic conversion meant for the ELEMENTS, behind the deque's own conversion
+DynsDq == {<<>>, <<f3s>>, <<fs>>}
+DynsSq == {<<>>, <<S("ts", K3, TStr, "none", "func")>>, <<ts("none", "func")>>}
+DqRoots == {TDeque(K3), TDeque(K1), TList(TDeque(K3))}
 
 SPool(inh, form) == IF Tier = "quick" THEN {ti(inh, form), tl(inh, form), tk3(inh, form)}
                     ELSE {ti(inh, form), ts(inh, form), tl(inh, form), tw(inh, form), tk3(inh, form), tlk(inh, form)}
@@ -87,6 +91,8 @@ DataFor(T) ==
   CASE T.k = "cls" /\ T.n = "H" -> HData \cup {DInt(1)}
     [] T.k = "cls" /\ T.n = "N" -> NData
     [] T.k = "list" /\ T.e = N  -> {DArr(<<h>>) : h \in NData}
+    [] T.k = "deque" -> {DArr(<<a>>) : a \in Leaves} \cup {DArr(<<DInt(1), DStr("a")>>), DArr(<<>>), DInt(1)}
+    [] T.k = "list" /\ T.e.k = "deque" -> {DArr(<< DArr(<<a>>) >>) : a \in {DInt(1), DStr("a"), DInt(13)}} \cup {DArr(<<>>)}
     [] T.k = "list" /\ T.e = H  -> {DArr(<<h>>) : h \in HData} \cup {DArr(<<>>)}
     [] T.k = "list"  -> {DArr(<<a>>) : a \in Leaves} \cup {DArr(<<DInt(1), DStr("a")>>), DArr(<<DStr("x"), DInt(13)>>), DArr(<<>>), DInt(1)}
     [] T.k = "dict"  -> {DObj(<< <<"k", a>> >>) : a \in Leaves} \cup {DObj(<<>>), DInt(1)}
@@ -101,6 +107,8 @@ ValuesFor(T) ==
   CASE T.k = "cls" /\ T.n = "K1" -> {Inst("K1"), Inst("K2")}
     [] T.k = "cls" /\ T.n = "N"  -> {NVal("K1"), NVal("K2")}
     [] T.k = "list" /\ T.e = N   -> {VList(<<NVal("K1")>>)}
+    [] T.k = "deque" -> {[k |-> "deque", a |-> <<Opq(T.e.n, "mk", DInt(4)), Opq(T.e.n, "mk", DInt(5))>>], [k |-> "deque", a |-> <<>>]}
+    [] T.k = "list" /\ T.e.k = "deque" -> {VList(<< [k |-> "deque", a |-> <<Opq("K3", "mk", DInt(4))>>] >>)}
     [] T.k = "cls" /\ T.n = "K2" -> {Inst("K2")}
     [] T.k = "cls" /\ T.n = "H"  -> {HVal("K1"), HVal("K2")}
     [] T.k = "list" /\ T.e = H   -> {VList(<<HVal("K1")>>), VList(<<>>)}
@@ -112,7 +120,9 @@ ValuesFor(T) ==
     [] T = TUni(<<K3, K1>>)   -> {Inst("K1"), Opq("K3", "mk", DInt(4))}
 
 Cfgs == IF Dir = "d" THEN {[E |-> e, T |-> t, dyn |-> dy] : e \in EnvsD, t \in Roots, dy \in DynsD}
+                             \cup {[E |-> e, T |-> t, dyn |-> dy] : e \in EnvsD, t \in DqRoots, dy \in DynsDq}
         ELSE {[E |-> e, T |-> t, dyn |-> dy] : e \in EnvsS, t \in Roots, dy \in DynsS}
+             \cup {[E |-> e, T |-> t, dyn |-> dy] : e \in EnvsS, t \in DqRoots, dy \in DynsSq}
 
 OutD(c) == [d \in DataFor(c.T) |-> VD(c.E, c.T, c.dyn, d)]
 OutS(c) == [v \in ValuesFor(c.T) |-> VS(c.E, c.T, c.dyn, v)]
